@@ -67,6 +67,103 @@ theorem literal_matches_only_itself (pattern address : Str) (h : ∀ c ∈ patte
       he ((matches_seqOf_chr pattern address).mp ((fullmatch_iff _ _).mp hm))
     simp [he, this]
 
+/-! ## (ii) dispatch -/
+
+/-- MAIN (dispatch): for EVERY history of responder operations (creation, enable, disable, free,
+    one_shot, function replacement, permanent, CmdPeriod add / remove / run) interleaved with incoming
+    datagrams — well-formed or not, from any sender, on any port, in either iteration order of the
+    dispatcher set — the dictionaries of wrapped callables, matcher objects and object identities of
+    `responders.py` produce exactly the outputs of the abstract machine of `Spec.lean`: each message
+    invokes the enabled responders whose path equals the address (exact) or is matched over its
+    whole length by it (matching) and whose source / port / argument filters accept it, each once,
+    in registration order, with the message, its time, sender and port; a one-shot responder is
+    disabled by its first call; CmdPeriod runs the registered user actions in registration order
+    and frees the non-permanent responders. -/
+theorem dispatch_refines (env : Env) (ops : List Op) :
+    (run env St.init ops).2 = (arun env ASt.init ops).2 := by
+  have := run_refines env ops St.init inv_init
+  rw [abs_init] at this
+  exact this.2.2
+
+/-- the abstract state after a history is the abstraction of the concrete one (so the theorem above
+    extends to every continuation) -/
+theorem dispatch_refines_state (env : Env) (ops : List Op) :
+    abs (run env St.init ops).1 = (arun env ASt.init ops).1 := by
+  have := run_refines env ops St.init inv_init
+  rw [abs_init] at this
+  exact this.2.1
+
+/-- `dispatch_exact`: in every reachable state the exact dispatcher calls, for a delivery `d`, the
+    functions of exactly the ENABLED responders created with the default constructor whose path
+    EQUALS the address and whose filters accept `d` — each once, in registration order. -/
+theorem dispatch_exact (env : Env) (s : St) (hs : Reachable env s) (d : Delivery) :
+    (dispatchExact env s d).2 = (ahits env (abs s) .exact d).map (·.2.func.fid) ∧
+    ((ahits env (abs s) .exact d).map (·.1)).Nodup ∧
+    ∀ q, q ∈ ahits env (abs s) .exact d ↔
+      ∃ r, lookupResp s q.1 = some r ∧ r.enabled = true ∧ r.disp = .exact ∧ q.2 = absResp r ∧
+        r.path = d.addr ∧ q.2.accepts env d = true := by
+  have h := reachable_inv hs
+  have hd := h.d .exact
+  refine ⟨(dispatchExact_refines env d h).2.2, ?_, ?_⟩
+  · simp only [ahits, aenabled_abs]
+    exact List.Nodup.sublist (List.Sublist.map _ List.filter_sublist) (nodup_filterMap_pairAbs hd)
+  · intro q
+    simp only [ahits, aenabled_abs, List.mem_filter, mem_filterMap_pairAbs hd, Bool.and_eq_true, beq_iff_eq]
+    constructor
+    · rintro ⟨⟨r, h1, h2, h3, h4⟩, h5, h6⟩
+      exact ⟨r, h1, h2, h3, h4, by rw [h4] at h5; exact h5, h6⟩
+    · rintro ⟨r, h1, h2, h3, h4, h5, h6⟩
+      exact ⟨⟨r, h1, h2, h3, h4⟩, by rw [h4]; exact h5, h6⟩
+
+/-- the same for the matching dispatcher: the address, read as a pattern, must match the WHOLE path -/
+theorem dispatch_matching (env : Env) (s : St) (hs : Reachable env s) (d : Delivery) :
+    (dispatchPattern env s d).2.called = (ahits env (abs s) .pattern d).map (·.2.func.fid) ∧
+    (dispatchPattern env s d).2.raised = false ∧
+    ∀ q, q ∈ ahits env (abs s) .pattern d ↔
+      ∃ r, lookupResp s q.1 = some r ∧ r.enabled = true ∧ r.disp = .pattern ∧ q.2 = absResp r ∧
+        oscMatch d.addr r.path = some true ∧ q.2.accepts env d = true := by
+  have h := reachable_inv hs
+  have hd := h.d .pattern
+  have hp := dispatchPattern_refines env d h
+  refine ⟨by rw [hp.2.2]; rfl, by rw [hp.2.2]; rfl, ?_⟩
+  intro q
+  have hkeys : ∀ key, key ∈ (abs s).keysP ↔ key ∈ akeys (s.disp .pattern).active := fun _ => Iff.rfl
+  simp only [ahits, aenabled_abs, List.mem_flatMap, List.mem_filter, mem_filterMap_pairAbs hd, Bool.and_eq_true,
+    beq_iff_eq]
+  constructor
+  · rintro ⟨key, ⟨_, hm⟩, ⟨r, h1, h2, h3, h4⟩, h5, h6⟩
+    have : r.path = key := by rw [h4] at h5; exact h5
+    exact ⟨r, h1, h2, h3, h4, by rw [this]; exact hm, h6⟩
+  · rintro ⟨r, h1, h2, h3, h4, h5, h6⟩
+    refine ⟨r.path, ⟨?_, h5⟩, ⟨r, h1, h2, h3, h4⟩, by rw [h4]; rfl, h6⟩
+    -- the path of an enabled matching responder is a key of the dispatcher
+    obtain ⟨p, hp1, hp2⟩ := List.mem_map.mp (hd.en q.1 r h1 h2 h3)
+    have hin : p ∈ (s.disp .pattern).wrapped.filter (fun p => hasPath s p.1 r.path) := by
+      refine List.mem_filter.mpr ⟨hp1, ?_⟩
+      simp [hasPath, hp2, h1]
+    have hne : lookupKey r.path (s.disp .pattern).active ≠ [] := by
+      rw [hd.act r.path]
+      intro e
+      have := List.mem_map_of_mem (f := fun x : Nat × Entry => x.2) hin
+      rw [e] at this; cases this
+    show r.path ∈ akeys (s.disp .pattern).active
+    cases hdec : decide (r.path ∈ akeys (s.disp .pattern).active) with
+    | true => exact of_decide_eq_true hdec
+    | false => exact absurd (lookupKey_of_not_mem _ _ (of_decide_eq_false hdec)) hne
+
+/-- disabled, freed and already-fired one-shot responders are never invoked: whatever fires is enabled -/
+theorem only_enabled_fire (env : Env) (s : St) (hs : Reachable env s) (k : DispKind) (d : Delivery) :
+    ∀ q ∈ ahits env (abs s) k d, q.2.enabled = true := by
+  have h := reachable_inv hs
+  intro q hq
+  cases k with
+  | exact =>
+    obtain ⟨r, _, h2, _, h4, _⟩ := ((dispatch_exact env s hs d).2.2 q).mp hq
+    rw [h4]; exact h2
+  | pattern =>
+    obtain ⟨r, _, h2, _, h4, _⟩ := ((dispatch_matching env s hs d).2.2 q).mp hq
+    rw [h4]; exact h2
+
 /-! ## (iii) hostile datagrams -/
 
 /-- a datagram the decoder rejects invokes nothing and leaves the receiver exactly as it was (so the
